@@ -328,9 +328,39 @@ def check_relative_positions(rep, fx):
                 relative = ('range.start' in txt or 'Bitstr::start' in txt) and ('Add' in txt or 'checked_add' in txt)
                 if not relative:
                     bad.append(txt[:50])
+        # ... and a test never compares a position argument as it is (relative to the value) with where the value sits in its
+        # buffer (range.start / range.end / start() / end()): the two count from different origins
+        from ..pathq import bool_branch as _bb, cmp_of as _cmp
+        mixed = []
+        for bb in f.reachable_blocks():
+            br = _bb(f, bb)
+            c = _cmp(br[0]) if br else None
+            if c is None:
+                continue
+            _op, a, b, _neg = c
+
+            def _kind(e):
+                t = expr_str(e, -20)
+                has_arg = any(isinstance(x, tuple) and x[0] == 'arg' and x[1] in params for x in expr_walk(e))
+                absolute = any(k in t for k in ('range.end', 'range.start', 'Bitstr::end(', 'Bitstr::start('))
+                length = 'Bitstr::len(' in t or ('range.end' in t and 'range.start' in t and 'Sub' in t)
+                if has_arg and not absolute:
+                    return 'rel'
+                if absolute and not length:
+                    return 'abs'
+                return 'other'
+            if {_kind(a), _kind(b)} == {'rel', 'abs'}:
+                mixed.append('%s vs %s' % (expr_str(a, -6)[:30], expr_str(b, -6)[:30]))
+        if mixed:
+            seen = True
         if not seen:
             continue
         n += 1
+        if mixed:
+            rep.add('C04.R4', 'C04.R4:position-compared-with-buffer-offset:%s' % fn, False,
+                    '%s compares a position argument, which counts from the start of the value, with an offset into the backing buffer (%s): the '
+                    'bound is too generous by the value\'s own start, so a value cut from a larger one answers differently from an equal value '
+                    'that starts at bit 0' % (short(fn), mixed[0]), fn, f.j['span'])
         rep.add('C04.R4', 'C04.R4:absolute-position:%s' % fn, not bad,
                 'range bounds are start + argument' if not bad else
                 '%s stores its position argument as a range bound as it is (%s): the position is an offset into the backing buffer, so the '
